@@ -26,6 +26,12 @@ CLAIMED["C14"] = dict(
    note="Trusted: sync.Mutex/Cond/context models, quiescence theorem 5.4; DoTimes (ft.DoTimes loop) is not under contract.",
    technique="contract-based deductive verification (lock invariant + ghost wake-up counters + ghost credit for spawn accounting)")
 
+CLAIMED["C19"] = dict(
+   text="hdrhist integer core proved in exact 64/32-bit bit-vector arithmetic for all shapes: bitLen is the bit length; New's bucket-count loop establishes the geometry invariant (highest trackable value < span of the last bucket, counts length); for every value in [min,max] the bucket index is in range, countsIndexFor is within len(counts) so RecordValue(s) always succeeds, increments exactly one bucket and the total; equivalent-value range: lowest <= v <= highest, width = 2^(unit+bucket) and width*subBucketHalfCount <= v above the first bucket (the precision bound); internal invariant panics unreachable. Not yet under contract: iterators, ValueAtQuantile/Min/Max, Export/Import/Merge/Equals.",
+   ref="DESIGN.md 7/C19",
+   note="Assumed (listed in evidence): the floating-point prologue of New (Pow10/Log2/Ceil/Floor/Pow) yields subBucketHalfCountMagnitude in {4,7,10,14,17}, subBucketCount = 2^(hcm+1), unitMagnitude = floor(log2 min); shapes restricted to 1 <= min < 2^44, max < 2^62.",
+   technique="contract-based deductive verification in QF_BV (case split on the five sub-bucket magnitudes)")
+
 NOT_APPLICABLE = {
  "C01": "exactly-once delivery across an unbounded set of goroutines and channels is a whole-execution property; no per-function contract within reach of the generator states it (DESIGN 7/C01)",
  "C04": "liveness (every goroutine eventually exits, a blocked consumer returns promptly): contracts give partial correctness only (DESIGN 7/C04)",
